@@ -82,7 +82,14 @@ func newTimedPQ(mode string) pqUnderTest {
 	default:
 		q = timed.NewPriorityQueue[int]()
 	}
-	at := func(p int) time.Time { return timedBase.Add(time.Duration(p) * time.Second) }
+	// the same instant is handed over in changing representations (local, UTC, two fixed zones): priorities are instants,
+	// not time.Time values, so a bound that denotes the instant of a queued element in another zone is "at" that element
+	zones := []*time.Location{time.Local, time.UTC, time.FixedZone("east", 5*3600), time.FixedZone("west", -3*3600-1800)}
+	calls := 0
+	at := func(p int) time.Time {
+		calls++
+		return timedBase.Add(time.Duration(p) * time.Second).In(zones[calls%len(zones)])
+	}
 	return pqUnderTest{
 		push:     func(id, p int) func() { q.Push(id, at(p)); return nil },
 		peek:     q.Peek,
@@ -310,7 +317,7 @@ func TestPriorityQueue(t *testing.T) {
 // TestTimedPriorityQueue: runtime/timed.PriorityQueue in ascending and (default) descending time order.
 func TestTimedPriorityQueue(t *testing.T) {
 	const check = "timed_priorityqueue"
-	stats.Rule(check, "rapid state machine over timed.NewPriorityQueue[int](ascending / descending / default), times = fixed base + 0..5 s (ties frequent); Push/Peek/Pop/PopUntil/PopAll/Size/IsEmpty vs a multiset model; ascending pops the earliest first and PopUntil(t) removes everything at or before t, descending the mirror image; non-trivial = at least 4 elements queued at once, equal times queued, and a PopUntil that removed some but not all elements; distinct by (mode, operation list)")
+	stats.Rule(check, "rapid state machine over timed.NewPriorityQueue[int](ascending / descending / default), times = fixed base + 0..5 s (ties frequent), each handed over in one of four rotating representations of the instant (local, UTC, two fixed zones); Push/Peek/Pop/PopUntil/PopAll/Size/IsEmpty vs a multiset model; ascending pops the earliest first and PopUntil(t) removes everything at or before t, descending the mirror image; non-trivial = at least 4 elements queued at once, equal times queued, and a PopUntil that removed some but not all elements; distinct by (mode, operation list)")
 	rapid.Check(t, func(rt *rapid.T) {
 		mode := rapid.SampledFrom([]string{"ascending", "descending-explicit", "descending-default"}).Draw(rt, "mode")
 		h := newHist(check, mode)
